@@ -798,6 +798,45 @@ def run(ctx):
             if d:
                 mism.append((sc, k, d))
                 break
+    searched = 0
+    if mism and not ctx.replay:
+        # failing-input search: a disagreement about the presence tables is usually latent (a contact cached as online
+        # while it is disabled, a counter that is off by one).  Continue the disagreeing histories with the requests
+        # that make such state visible - every permission change of the prefix is undone (un-mute, un-ban: want /
+        # given back to the full mode of the topic kind), then every idle topic is unloaded so that the convergence
+        # law is evaluated - and judge the IMPLEMENTATION's trace of the longer history with the laws.
+        known = set(f["key"] for f in ctx.load_findings() if f["property"] == ctx.pid)
+        cands = []
+        for sc0, k0, _ in sorted(mism, key=lambda x: x[1])[:16]:
+            if k0 < 0:
+                continue
+            pre = list(sc0.ops[:k0 + 1])
+            undo = []
+            for kd, ar in pre:
+                if kd == "want" and len(ar) >= 3:
+                    undo.append(("want", [ar[0], ar[1], 31 if str(ar[1]).startswith("p") else 47]))
+                elif kd == "given" and len(ar) >= 4:
+                    undo.append(("given", [ar[0], ar[1], ar[2], 31 if str(ar[1]).startswith("p") else 47]))
+            for j, suffix in enumerate(([("unloadall", [])], undo + [("unloadall", [])], undo + [("unloadall", [])] + undo + [("unloadall", [])])):
+                c = sc0.clone(pre + suffix)
+                c.id = "%s_s%d" % (sc0.id, j)
+                cands.append(c)
+        if cands:
+            rc3, im3, _ = run_impl(ctx, cands, tag="search")
+            searched = len(cands)
+            if rc3 == 0:
+                for c in cands:
+                    if c.id not in im3 or len(im3[c.id]) != len(c.ops):
+                        continue
+                    for law, kk, detail in mon(c, im3[c.id]):
+                        if law in known or law in fails:
+                            continue
+                        fails.setdefault(law, []).append((c, kk, detail))
+                        ctx.violation("monitor", law, "law %s fails on the implementation's trace of a history found by continuing a "
+                                      "correspondence mismatch (permission changes undone, idle topics unloaded): %s" % (law, detail),
+                                      {"head": c.head, "ops": [list(o) for o in c.ops[:kk + 1]], "law": law, "detail": detail,
+                                       "found_by": "search from a correspondence mismatch"})
+                        break
     if mism:
         sc, k, d = min(mism, key=lambda x: x[1])
         base = sc.clone(sc.ops[:k + 1]) if k >= 0 else sc
